@@ -2228,6 +2228,8 @@ def fixup_or_check_asymmetric_weights(force_symmetric_int_weights):
 def convert_squared_difference(op, arch, nng):
     if op.type == Op.SquaredDifference and op.run_on_npu:
         ifm, ifm2, ofm = op.get_ifm_ifm2_ofm()
+        # the operator's own OFM shape: the OFM tensor may carry the shape of a bypassed reshape
+        ofm_shape = op.ofm_shapes[0]
 
         identity_quant = QuantizationParameters(scale_f32=1.0, zero_point=0)
 
@@ -2307,6 +2309,7 @@ def convert_squared_difference(op, arch, nng):
         # Calculate the raw diff
         # the result has the shape of the OFM (the IFM may be the broadcast operand)
         raw_diff = ofm.clone(suffix="_raw_diff", set_unique=True)
+        raw_diff.set_all_shapes(ofm_shape.as_list())
         raw_diff.values = None  # an intermediate result, also when the operand is a constant
         raw_diff.dtype = DataType.int32
         raw_diff.quantization = None
@@ -2320,6 +2323,7 @@ def convert_squared_difference(op, arch, nng):
         # Calculate the squared diff
         # the result has the shape of the OFM (the IFM may be the broadcast operand)
         squared_raw = ofm.clone(suffix="_squared_raw", set_unique=True)
+        squared_raw.set_all_shapes(ofm_shape.as_list())
         squared_raw.values = None  # an intermediate result, also when the operand is a constant
         squared_raw.dtype = DataType.int32
         squared_raw.quantization = None
@@ -2337,6 +2341,7 @@ def convert_squared_difference(op, arch, nng):
         # Use explicit scaling for the shift (multiplier not actually used for int32, but value can not be empty)
         op.explicit_scaling = ExplicitScaling(False, [output_shift], [output_multiplier])
         op.set_ifm_ofm_shapes()
+        op.ofm_shapes[0] = ofm_shape
         DebugDatabase.add_optimised(op, op)
 
     return op
